@@ -9,10 +9,17 @@ pub trait TreapItemSized {
     fn size(&self) -> usize;
 }
 
+// number of per-thread generators handed out so far
+static STREAMS: std::sync::atomic::AtomicU64 = std::sync::atomic::AtomicU64::new(0);
+
 thread_local! {
     // one generator per thread: nodes may be created from any thread, and an unsynchronised
-    // `static mut` generator would be a data race
-    static RNG: std::cell::Cell<Rng> = std::cell::Cell::new(Rng::from_seed(42));
+    // `static mut` generator would be a data race.  Every thread gets its own seed (the first one 42):
+    // with equal seeds, nodes created on different threads would carry equal priorities, and a treap
+    // merged from them degenerates into a list
+    static RNG: std::cell::Cell<Rng> = std::cell::Cell::new(Rng::from_seed(
+        42u64.wrapping_add(STREAMS.fetch_add(1, std::sync::atomic::Ordering::Relaxed).wrapping_mul(0x9E37_79B9_7F4A_7C15)),
+    ));
 }
 
 type Priority = u32;
